@@ -221,6 +221,22 @@ def _s_wrongmod(s):
     pass
 
 
+def _s_refused_temp(s):
+    s.new()
+    s.new()
+
+
+def _s_refused_var(s):
+    if not s.t:
+        return False
+
+
+def _s_failing_body(s):
+    if not s.t:
+        return False
+    s.new()
+
+
 STMTS = {
     "new": ("a = vmod(1);", _s_new),
     "copy": ("b = a;", _s_copy),
@@ -249,7 +265,12 @@ STMTS = {
     "callee-keeps": ("zz = fkeep(a);", _s_keep),
     "add": ('zz = a.add(5, "str", 2.5, true, raw("xy"));', _s_add),
     "tab-of-temp": ("t = tab(2, vmod(8));", _s_tabtemp),
+    # loops that are refused when they start (a protected iterator) or die in their body with an error no handler takes
+    "forall-refused-temp": ("forall $o in tab(1, vmod(9)).concat(vmod(10)) loop zz = 0; end loop;", _s_refused_temp),
+    "forall-refused-var": ("forall $o in t loop zz = 0; end loop;", _s_refused_var),
+    "forall-failing-body": ("forall e in t loop zz = vmod(11).get(); raise efail; end loop;", _s_failing_body),
 }
+FAILING = {"forall-refused-temp", "forall-refused-var", "forall-failing-body"}
 HOST = ["purgewm", "clone", "free-clone"]
 
 
@@ -377,7 +398,10 @@ def check(case, res):
         nops = len(ops_of(name))
         step, logstep = st[k], st[k + nops - 1]
         k += nops
-        if step.get("r") not in ("ok",):
+        if name in FAILING:
+            if step.get("r") != "rerr":
+                bad("statement-outcome:%s" % name, "%s gave %s, expected a runtime error" % (name, step))
+        elif step.get("r") not in ("ok",):
             bad("statement-failed:%s" % name, "%s gave %s" % (name, step))
         process(parse_log(logstep.get("log", "")))
     dump = st[k].get("vars", {})
